@@ -156,9 +156,10 @@ func (b *Bridge) tokenByExt(chain, ext string) *TokenRow {
 			return &b.Cfg.Tokens[i]
 		}
 	}
-	// the external id a Repoint proposal gives a row (same token, same decimals, new contract)
+	// the external id a Repoint proposal gives a row (same token, same decimals, new contract), and the second contract a
+	// Dual proposal lists for a denom next to the first
 	for i := range b.Cfg.Tokens {
-		if t := &b.Cfg.Tokens[i]; t.Chain == chain && strings.EqualFold(hub.HexAddr("migrated-"+t.Chain+"|"+t.Denom), ext) {
+		if t := &b.Cfg.Tokens[i]; t.Chain == chain && (strings.EqualFold(hub.HexAddr("migrated-"+t.Chain+"|"+t.Denom), ext) || strings.EqualFold(hub.HexAddr("second-"+t.Chain+"|"+t.Denom), ext)) {
 			return t
 		}
 	}
@@ -657,6 +658,11 @@ func (b *Bridge) Ops(s *HState) []engine.Op {
 	if on("Renumber") {
 		ops = append(ops, engine.OpN("Renumber", 0))
 	}
+	if on("Dual") {
+		for _, row := range c.Relist {
+			ops = append(ops, engine.OpN("Dual", row))
+		}
+	}
 	if on("ColdStorage") {
 		for _, ch := range c.SendChains {
 			ops = append(ops, engine.OpN("ColdStorage", ch, c.SendDenoms[0]))
@@ -860,7 +866,7 @@ func (b *Bridge) Do(in *hub.Instance, gg Ghost, op engine.Op, st *engine.Step) {
 		if err == nil {
 			st.Count("parameter_changes", 1)
 		}
-	case "Relist", "Repoint", "Renumber":
+	case "Relist", "Repoint", "Renumber", "Dual":
 		// governance replaces the token list. Relist: the row is removed if listed, put back if removed. Repoint: the row
 		// keeps its token id and gets another external id (the token migrated to a new contract) - and back. Renumber: the
 		// same listings (denom, chain, external id, decimals) are stored under fresh row ids (the list was dropped and
@@ -873,12 +879,21 @@ func (b *Bridge) Do(in *hub.Instance, gg Ghost, op engine.Op, st *engine.Step) {
 		if op.Kind == "Renumber" {
 			key = "renumber"
 		}
+		if op.Kind == "Dual" {
+			// the denom gets a second contract on the chain, listed BEFORE the first one (new withdrawals go to it); the
+			// first listing stays - and back
+			key = "dual|" + key
+		}
 		want := !g.Delisted[key]
 		var infos []*mhubtypes.TokenInfo
 		for i, t := range b.Cfg.Tokens {
 			k := t.Chain + "|" + t.Denom
-			if op.Kind == "Relist" && ((k == key && want) || (k != key && g.Delisted[k])) || op.Kind == "Repoint" && g.Delisted[k] {
+			if op.Kind == "Relist" && ((k == key && want) || (k != key && g.Delisted[k])) || op.Kind != "Relist" && g.Delisted[k] {
 				continue
+			}
+			if dk := "dual|" + k; (dk == key && want) || (dk != key && g.Delisted[dk]) {
+				infos = append(infos, &mhubtypes.TokenInfo{Id: uint64(200 + i), Denom: t.Denom, ChainId: t.Chain, ExternalTokenId: hub.HexAddr("second-" + k),
+					ExternalDecimals: t.Dec, Commission: sdk.NewDec(t.CommissionBP).QuoInt64(10000)})
 			}
 			ext := t.ExtID
 			if rk := "repoint|" + k; (rk == key && want) || (rk != key && g.Delisted[rk]) {
@@ -1529,8 +1544,22 @@ func init() {
 				}
 			}
 		}
+		// a denom gets a second contract on ethereum (listed before the first, which stays): a batch of the first contract is
+		// pending, then a batch of the second one is built and executed - the external chain keeps one batch nonce per contract
+		dc := cfg
+		dc.Relist = []int{0}
+		dc.PayoutsMayFail = true // (the second listing can be taken back while its batch is pending)
+		dc.Users = 1
+		dc.Ops = opsSet("Next", "Send", "ReqBatch", "Exec", "Dual", "ExtAdvance")
+		dc.SendChains = []string{"ethereum"}
+		dc.SendDenoms = []string{"hub"}
+		dc.DepChains = []string{"ethereum"}
+		dc.Fees = dc.Fees[:1]
+		dc.Seeds = [][]engine.Op{append(append([]engine.Op{}, seedObserved...), engine.OpN("Send", "ethereum", "hub", 0, 0, 0), engine.OpN("ReqBatch", "ethereum", "hub"), engine.OpN("Dual", 0),
+			engine.OpN("Send", "ethereum", "hub", 0, 0, 0), engine.OpN("ReqBatch", "ethereum", "hub"))}
 		const weth, ust = "0xC02aaA39b223FE8D0A0e5C4F27eAD9083C756Cc2", "0xa47c8bf37f92aBed4A126BDA807A7b7498661acD"
 		return append(append([]MultiCase{{Name: "from observed heights", Spec: NewBridge(a), Cfg: ec},
+			{Name: "a denom with two contracts on ethereum, a pending batch of each", Spec: NewBridge(dc), Cfg: ecb},
 			{Name: "started from a genesis file with two pending ethereum batches of one token, newest first", Spec: NewBridge(gi), Cfg: ecb}}, execCases(cfg, ecb)...), MultiCase{Name: "from two pending batches of different tokens on ethereum", Spec: NewBridge(bb), Cfg: ecb},
 			MultiCase{Name: "from two batches of one token whose timeouts are not monotone", Spec: NewBridge(cc), Cfg: ecb},
 			MultiCase{Name: "mixed-case contract ids (0xC02a.. = hub, 0xa47c.. = eth), three pending batches", Spec: NewBridge(mk(weth, ust)), Cfg: ecb},
@@ -1602,6 +1631,19 @@ func init() {
 		ecro := ec
 		ecro.MaxDepth = 2
 		ecro.Deadline = ec.Deadline / 4
+		// contract ids listed in lower case (nothing validates or normalises the spelling of a listing: every reader compares
+		// the id as a string, so the spelling is state)
+		lc := cfg
+		lc.Tokens = append([]TokenRow{}, cfg.Tokens...)
+		for i := range lc.Tokens {
+			if strings.HasPrefix(lc.Tokens[i].ExtID, "0x") {
+				lc.Tokens[i].ExtID = strings.ToLower(lc.Tokens[i].ExtID)
+			}
+		}
+		lc.Relist = []int{1}
+		lc.Ops = opsSet("Next", "Send", "Deposit", "ReqBatch", "Relist")
+		// (the list in the store is the one a governance proposal wrote: a row taken off and put back)
+		lc.Seeds = [][]engine.Op{{}, {engine.OpN("Relist", 1), engine.OpN("Relist", 1)}}
 		// governance has taken the only token of a chain off the list (events of that chain were observed before): the
 		// chain's counters and cursors are bridge state all the same
 		nt := cfg
@@ -1613,6 +1655,7 @@ func init() {
 		return []MultiCase{{Name: "bridge histories, oracle prices from genesis", Spec: NewBridge(cfg), Cfg: ec}, {Name: "holders adopted, no prices", Spec: NewBridge(ho), Cfg: ech},
 			{Name: "token list stored in descending id order", Spec: NewBridge(ro), Cfg: ecro},
 			{Name: "a chain with observed events whose only token was taken off the list", Spec: NewBridge(nt), Cfg: ecro},
+			{Name: "contract ids listed in lower case", Spec: NewBridge(lc), Cfg: ecro},
 			{Name: "a lagging validator, rotated delegate keys", Spec: NewBridge(lr), Cfg: ec},
 			pcase("outgoing transfer timeout 0", func(p *mhubtypes.Params) { p.OutgoingTxTimeout = 0 }),
 			pcase("no chains (bridge paused)", func(p *mhubtypes.Params) { p.Chains = []string{} }),
